@@ -2,6 +2,7 @@ package main
 
 import (
 	"context"
+	"errors"
 	"fmt"
 	"sort"
 	"strings"
@@ -291,7 +292,7 @@ func c07main(c *Ctx) {
 		}
 		if parentCtxKeys {
 			ctx = context.WithValue(context.WithValue(ctx, "pk0", "ctx#parent0"), ctxKeyT{"pk1"}, "ctx#parent1") //nolint:staticcheck // string keys are what the library documents
-			ctx = context.WithValue(ctx, "sibling-key", "ctx#sibling")                                       //nolint:staticcheck
+			ctx = context.WithValue(ctx, "sibling-key", "ctx#sibling")                                           //nolint:staticcheck
 		}
 		nilCtx := nkeys > 0 && r.P(10)
 		type regKey struct {
@@ -360,6 +361,7 @@ func c07main(c *Ctx) {
 		}
 		call := genSrcList(r, "call", ncall, ks, groups && !wide)
 		var args []any
+		errGiven := false
 		for _, kv := range call {
 			switch {
 			case !kv.isG && (wide || r.P(40)):
@@ -377,6 +379,11 @@ func c07main(c *Ctx) {
 				}
 				args = append(args, kv.key, as)
 				c.R.Add("pairs_whose_value_is_an_attribute", 1)
+			case !kv.isG && f != FJSON && !errGiven && r.P(15):
+				// the value is an ERROR (printed as its message): the attributes whose keys sort after it are printed as always
+				args = append(args, kv.key, errors.New(kv.src))
+				errGiven = true
+				c.R.Add("calls_with_an_error_valued_attribute", 1)
 			default:
 				args = append(args, kv.attr())
 			}
@@ -431,14 +438,28 @@ func c07main(c *Ctx) {
 			doomedRecord(f, w)
 			c.R.Add("cases_after_a_recovered_panicking_record", 1)
 		}
+		// the logger may be the process's DEFAULT logger (handed to SetDefault as the *Entry it is), the record issued
+		// through the package-level function: the same sources, the same rule
+		viaPkg := r.P(12)
+		if viaPkg {
+			savedDef := slog.Default()
+			slog.SetDefault(lg)
+			defer slog.SetDefault(savedDef)
+			c.R.Add("records_through_a_package_level_function_with_the_logger_as_default", 1)
+		}
 		evs := capture(log, func() {
-			if nilCtx {
+			switch {
+			case viaPkg && nilCtx:
+				slog.InfoContext(nil, "probe", args...) //nolint:staticcheck
+			case viaPkg:
+				slog.InfoContext(ctx, "probe", args...)
+			case nilCtx:
 				lg.InfoContext(nil, "probe", args...) //nolint:staticcheck // nil context is in the property's domain
-			} else {
+			default:
 				lg.InfoContext(ctx, "probe", args...)
 			}
 		})
-		desc := map[string]any{"format": f.String(), "inherit_flag": inherit, "depth": depth, "ctx": descList(ctxList), "registered_ctx_keys": keyDesc, "nil_ctx": nilCtx, "call": descList(call), "after_recovered_panicking_record": afterDoomed, "Lattrs_cleared": noLattrs}
+		desc := map[string]any{"through_package_level_function": viaPkg, "format": f.String(), "inherit_flag": inherit, "depth": depth, "ctx": descList(ctxList), "registered_ctx_keys": keyDesc, "nil_ctx": nilCtx, "call": descList(call), "after_recovered_panicking_record": afterDoomed, "Lattrs_cleared": noLattrs}
 		for d := 0; d < depth; d++ {
 			desc[fmt.Sprintf("logger%d_attrs", d)] = descList(own[d])
 		}
